@@ -21,7 +21,8 @@ CONSTANTS
   Delims,       \* set of delimiter bytes to use (0 = no delimiter)
   FsDomain,     \* TRUE: only key sets within the fs backends' key domain
   CfgName,
-  Shard, Shards \* enumerate only key sets whose index mod Shards = Shard (parallel runs)
+  Shard, Shards, \* (reserved)
+  Markers       \* TRUE: add single-page queries under arbitrary markers (paginating backends)
 
 VARIABLES ks
 vars == <<ks>>
@@ -69,7 +70,16 @@ Queries(S) ==
                      max |-> 0, marker |-> <<>>, hasMarker |-> FALSE]
                       : d \in {x \in Delims : DelimOK(S, x) /\ (p = <<>> \/ p[1] # x)}}
                    : p \in PrefixSet}
-  IN SetToSeq(qs)
+      \* arbitrary markers: every live key, keys that are not in the bucket,
+      \* one inside a possible common prefix and one beyond the end (C04)
+      ms == S \cup {<<97>>, <<97, 47>>, <<97, 47, 48>>, <<45, 45>>, <<122>>}
+      mq == IF ~Markers THEN {} ELSE
+            UNION {{[op |-> "ListObjects", b |-> B, v2 |-> FALSE, prefix |-> p, delim |-> DelimSeq(d),
+                     max |-> 0, marker |-> m, hasMarker |-> TRUE, markerKind |-> mk]
+                      : d \in {x \in Delims : DelimOK(S, x) /\ (p = <<>> \/ p[1] # x)},
+                        m \in ms, mk \in {"start", "token"}}
+                   : p \in {<<>>, <<97>>}}
+  IN SetToSeq(qs) \o SetToSeq(mq)
 
 Init0 == IF Cfg.single # "" THEN [InitState EXCEPT !.bk = Upd(<<>>, Cfg.single, NewBucket)] ELSE InitState
 
